@@ -58,6 +58,43 @@ def describe_store(st):
     return sel, val
 
 
+def core_content_problems(which, par, i, c, nfun, m):
+    """entry-level comparison of one mode core with the definition:  core 0: [0, k, 0, j] = psi_{0,k}(x_j);  core i > 0: [j, k, 0, j] = psi_{i,k}(x_j) and
+    [j, k, 0, j'] = 0 for j' != j  (diagonal in the snapshot index), whatever way the entries were stored"""
+    from . import content
+    bad = []
+    if not (isinstance(c, Arr) and c.ndim == 4):
+        return [f'core {i} is not a 4-dimensional array']
+    Q, Q2 = SymIdx(0, m, 'j'), SymIdx(0, m, "j'")
+    Q.is_query = Q2.is_query = True
+    if not (sz_eq(c.shape[1], nfun) and sz_eq(c.shape[3], m) and (sz_eq(c.shape[0], m) if i > 0 else sz_eq(c.shape[0], 1))):
+        return [f'core {i} has shape {c.shape}']
+    unknown = 0
+    for k in range(nfun):
+        got = content.entry(c, [0 if i == 0 else Q, k, 0, Q])
+        if which == 'basis_decomposition':
+            want = ('basis', (i, k), ('x', (('all',), ('int', Q))))
+        elif which == 'coordinate_major':
+            want = ('basis', (k,), ('x', (('int', i), ('int', Q))))
+        else:
+            ao = 1 if par.get('add_one') else 0
+            want = ('num', 1) if (ao and k == 0) else ('basis', (i,), ('x', (('int', k - ao), ('int', Q))))
+        same = content.same_content(got, want)
+        if same is None:
+            unknown += 1
+        elif not same:
+            bad.append(f'core {i}: entry [{"0" if i == 0 else "j"}, {k}, 0, j] is {content.show(got)} instead of {content.show(want)}')
+        if i > 0:
+            off = content.entry(c, [Q, k, 0, Q2])
+            if off is None:
+                unknown += 1
+            elif off != ('zero',):
+                bad.append(f'core {i}: entry [j, {k}, 0, j\'] with j\' != j is {content.show(off)} instead of 0 (the core is not diagonal in the snapshot index)')
+    if unknown and not bad:
+        raise AnalysisError(f'{which}: the content of core {i} is assembled in a way the entry analysis does not follow ({unknown} entries of unknown provenance)')
+    return bad
+
+
 def check(repo, tier):
     run = Run('C15', tier, repo, 'data_driven/transform.py interpreted from source with a symbolic number of snapshots; basis functions are uninterpreted callables whose results remember which '
               'function was evaluated at which data point; rules on the logged block stores.')
@@ -75,7 +112,8 @@ def check(repo, tier):
         return Finding('C15', rule, fn.where, what, msg, fn.file, fn.node.lineno)
 
     def mk_x(sc, d):
-        return Arr([d, sc.atom('m')], None, 'real', None, {'role': 'x'}, 'x')
+        sc.m = sc.atom('m')
+        return Arr([d, sc.m], None, 'real', None, {'role': 'x'}, 'x')
     grids = []
     big = tier == 'thorough'
     for p in ((1, 2, 3, 4, 5) if big else (1, 2, 3)):
@@ -119,41 +157,9 @@ def check(repo, tier):
                 bad.append(f'{len(cores)} cores for {nm} modes (expected {nm + 1})')
             if len({id(c.buf) for c in cores}) != len(cores):
                 bad.append('two cores are the same array (built by list repetition?)')
-            full_stores = []
+            full_stores = [[describe_store(st) for st in c.tags.get('stores', [])] for c in cores[:nm]]
             for i, c in enumerate(cores[:nm]):
-                sts = [describe_store(st) for st in c.tags.get('stores', [])]
-                full_stores.append(sts)
-                if not sts:
-                    bad.append(f'core {i} is never written')
-                for st_raw, (sel, val) in zip(c.tags.get('stores', []), sts):
-                    # position: [0 | j, slice/int, 0, j]
-                    want_first = ('int', '0') if i == 0 else ('int', 'j0')
-                    if sel[0] != want_first or sel[2] != ('int', '0') or sel[3] != ('int', 'j0'):
-                        bad.append(f'core {i}: store position {sel} is not [{"0" if i == 0 else "j"}, ., 0, j]')
-                    if val[0] == 'vector':
-                        for (label, role, psel) in val[1]:
-                            if role != 'x' or psel is None or psel[-1] != ('int', 'j0'):
-                                bad.append(f'core {i}: a basis value is not evaluated at snapshot j of x ({role}, {psel})')
-                            if which == 'basis_decomposition' and (label is None or label[0] != i):
-                                bad.append(f'core {i} holds values of the functions of mode {label[0] if label else "?"}')
-                            if which == 'coordinate_major' and psel is not None and psel[0] != ('int', str(i)):
-                                bad.append(f'core {i} evaluates coordinate {psel[0]} instead of coordinate {i}')
-                            if which == 'function_major' and (label is None or label[0] != i):
-                                bad.append(f'core {i} holds values of function {label[0] if label else "?"} instead of function {i}')
-                        if which == 'function_major':
-                            want = ('range', '1', str(par['d'] + 1)) if par['add_one'] else ('all',)
-                            if sel[1] != want:
-                                bad.append(f'core {i}: the function values are stored at {sel[1]} instead of {want}')
-                            coords = [psel[0] for (_, _, psel) in val[1] if psel]
-                            if val[2] != str(par['d']) and len(val[1]) != par['d']:
-                                bad.append(f'core {i}: {len(val[1])} coordinates evaluated instead of {par["d"]}')
-                    elif val == ('scalar', 1):
-                        if not (which == 'function_major' and par.get('add_one') and sel[1] == ('int', '0')):
-                            bad.append(f'core {i}: a constant 1 is stored at {sel[1]}')
-                    else:
-                        bad.append(f'core {i}: unexpected stored value {val}')
-                if which == 'function_major' and par.get('add_one') and not any(v == ('scalar', 1) for _, v in sts):
-                    bad.append(f'core {i}: the constant function (add_one) is not stored')
+                bad += core_content_problems(which, par, i, c, sc.meta['nfun'][i], sc.m)
             last = cores[-1] if cores else None
             if last is not None:
                 v = last
@@ -174,11 +180,11 @@ def check(repo, tier):
                     run.oblige('D2', (entry, sscen), False)
                     l2rules.raised_finding(run, 'C15', 'D2', repo, entry, sscen, exc)
                     continue
-                good = isinstance(res, Arr) and res.ndim == 4 and [describe_store(st) for st in res.tags.get('stores', [])] == full_stores[i]
+                probs = core_content_problems(which, par, i, res, sc.meta['nfun'][i], sc.m) if isinstance(res, Arr) and res.ndim == 4 else [f'the result is not a 4-dimensional core: {res!r}']
+                good = not probs
                 run.oblige('D2', (entry, sscen), good)
                 if not good:
-                    got = [describe_store(st) for st in res.tags.get('stores', [])] if isinstance(res, Arr) else res
-                    run.add(F(entry, 'D2', 'single_core option', f'{sscen}: the stores {str(got)[:260]} differ from those of core {i} of the full construction {str(full_stores[i])[:260]}'))
+                    run.add(F(entry, 'D2', 'single_core option', f'{sscen}: the returned core is not core {i} of the full construction: ' + '; '.join(sorted(set(probs))[:3])))
     # ------------------------------------------------------------------ D3 gram
     entry = f'{MOD}.gram'
     for p in ((1, 2, 3, 4, 5) if tier == 'thorough' else (1, 2, 3)):
